@@ -372,6 +372,96 @@ impl<T: PartialEq> DetSet<T> {
     pub fn iter(&self) -> std::slice::Iter<'_, T> {
         self.items.iter()
     }
+
+    // ---- the rest of the commonly used `HashSet` interface, so that edits of the crate keep compiling with the feature on ----
+
+    pub fn capacity(&self) -> usize {
+        self.items.capacity()
+    }
+
+    pub fn reserve(&mut self, additional: usize) {
+        self.items.reserve(additional);
+    }
+
+    pub fn shrink_to_fit(&mut self) {
+        self.items.shrink_to_fit();
+    }
+
+    pub fn get(&self, value: &T) -> Option<&T> {
+        self.items.iter().find(|item| *item == value)
+    }
+
+    pub fn take(&mut self, value: &T) -> Option<T> {
+        let pos = self.items.iter().position(|item| item == value)?;
+        Some(self.items.remove(pos))
+    }
+
+    pub fn replace(&mut self, value: T) -> Option<T> {
+        if let Some(pos) = self.items.iter().position(|item| *item == value) {
+            Some(std::mem::replace(&mut self.items[pos], value))
+        } else {
+            self.items.push(value);
+            None
+        }
+    }
+
+    pub fn retain<F: FnMut(&T) -> bool>(&mut self, f: F) {
+        self.items.retain(f);
+    }
+
+    pub fn drain(&mut self) -> std::vec::Drain<'_, T> {
+        self.items.drain(..)
+    }
+
+    pub fn union<'a>(&'a self, other: &'a DetSet<T>) -> impl Iterator<Item = &'a T> {
+        self.items.iter().chain(other.items.iter().filter(move |item| !self.items.contains(item)))
+    }
+
+    pub fn intersection<'a>(&'a self, other: &'a DetSet<T>) -> impl Iterator<Item = &'a T> {
+        self.items.iter().filter(move |item| other.items.contains(item))
+    }
+
+    pub fn difference<'a>(&'a self, other: &'a DetSet<T>) -> impl Iterator<Item = &'a T> {
+        self.items.iter().filter(move |item| !other.items.contains(item))
+    }
+
+    pub fn symmetric_difference<'a>(&'a self, other: &'a DetSet<T>) -> impl Iterator<Item = &'a T> {
+        self.difference(other).chain(other.difference(self))
+    }
+
+    pub fn is_subset(&self, other: &DetSet<T>) -> bool {
+        self.items.iter().all(|item| other.items.contains(item))
+    }
+
+    pub fn is_superset(&self, other: &DetSet<T>) -> bool {
+        other.is_subset(self)
+    }
+
+    pub fn is_disjoint(&self, other: &DetSet<T>) -> bool {
+        !self.items.iter().any(|item| other.items.contains(item))
+    }
+}
+
+impl<T: PartialEq> Extend<T> for DetSet<T> {
+    fn extend<I: IntoIterator<Item = T>>(&mut self, iter: I) {
+        for item in iter {
+            self.insert(item);
+        }
+    }
+}
+
+impl<'a, T: PartialEq + Copy + 'a> Extend<&'a T> for DetSet<T> {
+    fn extend<I: IntoIterator<Item = &'a T>>(&mut self, iter: I) {
+        for item in iter {
+            self.insert(*item);
+        }
+    }
+}
+
+impl<T: PartialEq, const N: usize> From<[T; N]> for DetSet<T> {
+    fn from(items: [T; N]) -> Self {
+        items.into_iter().collect()
+    }
 }
 
 impl<T: PartialEq> Default for DetSet<T> {
